@@ -151,6 +151,8 @@ def variants(m, tier, seed):
         yield "atom-order", m, {"atom_order": o}
     for o in _orders([tuple(sorted(b, key=repr)) for b in m.bonds]):
         yield "bond-order", m, {"bond_order": o}
+    if m.astereo or m.bstereo or m.achg or m.bchg:
+        yield "numpy-typed-descriptors", m, {"np_values": True}
     ns = len(m.astereo) + len(m.bstereo)
     if ns > 1:
         yield "stereo-order", m, {"stereo_order": list(reversed(range(ns)))}
